@@ -72,7 +72,10 @@ def m1(rep, w):
                 'runs it again' % what, f.loc())
     r.check(bool(reg) and bool(body) and all(any(rg in dom.get(bd, ()) for rg in reg) for bd in body), 'the module is registered before its body runs',
             'the body is started before the module is registered: a cyclic import is not recognised and recurses', f.loc())
-    # the hit edge: imported ? push module : ImportError
+    # the hit edge: imported ? push module : ImportError. These clauses are stated over the per-module flag; a tree that keeps the still-loading state
+    # some other way (a VM-level stack of modules being loaded) is one they cannot judge
+    if not any(fd['n'] == 'imported' for fd in c.adts.get('yarel::object::ObjModule', {'variants': [{'fields': []}]})['variants'][0]['fields']):
+        raise Broken('C14', 'anchor', 'ObjModule has no `imported` field: whether a module is still being loaded is kept some other way, which M1 cannot judge')
     hit_region = {x for x in f.normal_blocks() if x not in miss_region and sw in dom.get(x, ())}
     reads_imported = any('imported' in [e.get('n') for e in (op_place(s['r'].get('o', {}) or {}) or {}).get('p', []) if isinstance(e, dict)]
                          for x in hit_region for s in f.blocks[x]['s'] if s.get('r', {}).get('rv') == 'use')
